@@ -318,6 +318,11 @@ impl Tracker {
     /// submitted and the call returns without waiting for the results, so that the next batch
     /// can be submitted while the voting jobs of this one are still running.
     pub fn submit_batch(&mut self, batch: &[(u64, Vec<Det>)]) -> Option<Pending> {
+        self.submit_batch_delayed(batch, 0)
+    }
+
+    /// ... with a consumer that starts reading the results only after `delay_ms`
+    pub fn submit_batch_delayed(&mut self, batch: &[(u64, Vec<Det>)], delay_ms: u64) -> Option<Pending> {
         match self {
             Tracker::BS(t) => {
                 let (mut req, res) = PredictionBatchRequest::<(Universal2DBox, Option<i64>)>::new();
@@ -327,7 +332,12 @@ impl Tracker {
                     }
                 }
                 let n = res.batch_size();
-                let handle = std::thread::spawn(move || (0..n).map(|_| res.get()).collect::<Vec<_>>());
+                let handle = std::thread::spawn(move || {
+                    if delay_ms > 0 {
+                        std::thread::sleep(std::time::Duration::from_millis(delay_ms));
+                    }
+                    (0..n).map(|_| res.get()).collect::<Vec<_>>()
+                });
                 t.predict(req);
                 Some(Pending { handle })
             }
@@ -339,7 +349,12 @@ impl Tracker {
                     }
                 }
                 let n = res.batch_size();
-                let handle = std::thread::spawn(move || (0..n).map(|_| res.get()).collect::<Vec<_>>());
+                let handle = std::thread::spawn(move || {
+                    if delay_ms > 0 {
+                        std::thread::sleep(std::time::Duration::from_millis(delay_ms));
+                    }
+                    (0..n).map(|_| res.get()).collect::<Vec<_>>()
+                });
                 t.predict(req);
                 Some(Pending { handle })
             }
